@@ -11,6 +11,7 @@ import (
 	"fmt"
 	"hash/fnv"
 	"io"
+	"math"
 	"strings"
 
 	"storj.io/drpc"
@@ -146,12 +147,19 @@ func finalClass(e error) string {
 
 func checkStream(id string, seed uint64, max int, nparts int) runner.Result {
 	r := &payload.SplitMix{S: seed}
-	st := wiregen.GenStream(r, max)
+	genMax := max
+	if max > 1<<30 {
+		genMax = []int{100, 4096, 65536}[r.Intn(3)] // "no limit" settings: the streams are sized as for an ordinary maximum
+	}
+	st := wiregen.GenStream(r, genMax)
 	effMax := max
 	if effMax == 0 {
 		effMax = 4 << 20
 	}
 	limit := 4*effMax + 64*1024
+	if max > 1<<30 {
+		limit = 4*len(st.Data) + 64*1024 // the maximum bounds nothing here; what arrived does
+	}
 
 	refPkts, refClass, trailing := refwire.ReassembleBytes(st.Data, effMax)
 	var refR []string
@@ -304,6 +312,10 @@ func gen(tier string, seed uint64) []runner.Scenario {
 		if max == 0 && i%(len(maxes)*8) != len(maxes)-1 {
 			max = []int{7, 29, 1000, 300}[(i/len(maxes))%4] // the 4 MiB default is expensive: one stream in eight rounds
 		}
+		if i%16 == 15 {
+			// settings that mean "no limit": the largest ints and their neighbourhood
+			max = []int{math.MaxInt, math.MaxInt - 1, math.MaxInt - 29, math.MaxInt - 31, math.MaxInt - 64, 1 << 62, 1 << 40, math.MaxInt32}[(i/16)%8]
+		}
 		s := payload.Hash(seed, 0xC09, uint64(i))
 		id := fmt.Sprintf("stream/%d/max=%d", i, max)
 		mx := max
@@ -317,7 +329,7 @@ func main() {
 	runner.Main(runner.Check{
 		Property: "C09",
 		Level:    "exploration",
-		Rule:     "one case = one seeded byte stream (valid multi-frame packets, id jumps and regressions, kind changes, control bits on middle frames, payloads at max-1/max/max+1, huge declared lengths, never-done packets, bursts of small frames after a large one, malformed varints, truncated tails) for one MaximumBufferSize in {1,7,29,100,300,1000,4067,4096,65536,default}; it is run through the real Reader under 8 (quick) / 16 (thorough) partitions (all-at-once, 1-byte, frame edges -1/0/+1, seeded random chunk sizes, error with or after data, interleaved empty reads). Non-trivial: the reference yields at least one packet or an error. Distinct: by (max, stream description).",
+		Rule:     "one case = one seeded byte stream (valid multi-frame packets, id jumps and regressions, the largest message id and the very last (stream, message) id followed by ids that only a wrapped counter would accept, kind changes, control bits on middle frames, payloads at max-1/max/max+1, huge declared lengths, never-done packets, bursts of small frames after a large one, malformed varints, truncated tails) for one MaximumBufferSize in {1,7,29,100,300,1000,4067,4096,65536,default} or a no-limit setting {MaxInt, MaxInt-1, MaxInt-29, MaxInt-31, MaxInt-64, 2^62, 2^40, MaxInt32}; it is run through the real Reader under 8 (quick) / 16 (thorough) partitions (all-at-once, 1-byte, frame edges -1/0/+1, seeded random chunk sizes, error with or after data, interleaved empty reads). Non-trivial: the reference yields at least one packet or an error. Distinct: by (max, stream description).",
 		Assumptions: []string{
 			"reference reassembler refwire.Reassembler encodes the documented rules",
 			"when the stream ends inside a frame that could only complete beyond the maximum, both 'overflow' and the transport's own error are accepted (the statement does not choose), but the answer must be partition-independent",
